@@ -354,6 +354,15 @@ pub fn generate(mode: Mode, rng: &mut Rng, idx: usize, _tier: Tier) -> CaseOut {
     let (fcs, comments, _) = fcases(&spec);
     let exp_coq = if damage.is_some() { "None".to_string() } else { format!("(Some [{}])", exp.join("; ")) };
     let mut coq = format!("(check_list [{}] {} {})", fcs.join("; "), emit::lobs(&out.list), exp_coq);
+    if damage.is_some() {
+        // C12: the error names the unbalanced file (whatever its wording)
+        let names_file = match &out.list {
+            Outcome::Err(_, msg) => msg.contains(path.as_str()),
+            _ => true,
+        };
+        coq = format!("(both_verdicts {coq} {})", if names_file { 0 } else { 2 });
+        tags.push(format!("error-names-file:{names_file}"));
+    }
     // by-construction comment spans vs the spans the grammar produced (C03's grammar-level claim)
     let main_idx = spec.files.iter().position(|(p, _)| *p == path).unwrap();
     let mut recorded: Vec<(usize, usize)> = comments[main_idx].iter().map(|c| (c.lo, c.hi)).collect();
